@@ -7,7 +7,7 @@ from kfv.rules import coh_rules as C
 from kfv.rules import spmd_rules as S
 
 TECHNIQUE = ('rank-label dataflow over KAISAAssignment (uniformity of the inverse-worker table and of group creation), hash-order lint on '
-             'mypy set element types, structural grid rules (column/row records, partition normal forms), float-integrality lint, role types of the greedy loops')
+             'mypy set element types, structural grid rules (column/row records, partition normal forms), float-integrality lint, role types of the greedy loops; provenance of the rank / world size the assignment is built for')
 EXPLANATION = (
     'Identical derivation on every rank is decided by the rank-label analysis: the inverse-worker table, the gradient-worker '
     'records, the broadcast flags and every argument/guard of process-group creation carry the empty label, and no order is '
@@ -15,7 +15,7 @@ EXPLANATION = (
     'inverse worker of the layer, receiver group = the row containing the local rank, source = their intersection, '
     'is_grad_worker = membership in the same column record, the partition functions have the specified range normal forms, '
     'the flags are the specified comparisons, and the worker count is derived by tolerant rounding.  That columns/rows '
-    'partition [0, W) and intersect in one element is integer arithmetic over all sizes and is not decided.')
+    'partition [0, W) and intersect in one element is integer arithmetic over all sizes and is not decided. The assignment is constructed with get_rank() / get_world_size() of the default group (RANK-ARG).')
 
 NOT_DECIDED = 'that columns/rows partition [0,W) into equal parts and intersect in exactly one element (integer arithmetic over all sizes)'
 
